@@ -79,6 +79,11 @@ def grid_cases(rng, tier):
               'opt-se2geo', 'opt-3duct-convapprox', 'opt-five-regions',
               'opt-only-upper-region', 'opt-bare-kc', 'opt-eng-se2-mit'):
         out.append((k, _sl[k]))
+    # another boundary less than one step above an interface between two
+    # un-rodded regions (the step must still land on the interface)
+    c6 = copy.deepcopy(_sl['opt-five-regions'])
+    c6['setup']['axial_plane'] = [0.5512, 0.0811, 0.2009]
+    out.append(('five-regions-planes-just-above-interfaces', c6))
     # un-rodded regions in laminar flow (low flow rate)
     tl = add_regions(bundle_type(2), L,
                      lower=dict(model='simple', vf_coolant=0.3,
